@@ -95,4 +95,98 @@ func widen(td *TableData) {
 	}
 }
 
-var _ = []any{insertRow, removeRow, widen}
+// swapLocations re-points, in every index, the two entries of two swapped rows; it stops scanning an index once both
+// were found. The counter is declared per index: correct.
+func swapLocations(td *TableData, part string, a, b int) {
+	for _, rows := range td.secondaryIndexStorage {
+		found := 0
+		for _, idxRow := range rows {
+			if idxRow[1] == any(part) && idxRow[2] == any(a) {
+				idxRow[2] = b
+				found++
+			} else if idxRow[1] == any(part) && idxRow[2] == any(b) {
+				idxRow[2] = a
+				found++
+			}
+			if found >= 2 {
+				break
+			}
+		}
+	}
+}
+
+// swapLocationsReset: the same optimisation with the counter declared outside but reset for every index: correct.
+func swapLocationsReset(td *TableData, part string, a, b int) {
+	var found int
+	for _, rows := range td.secondaryIndexStorage {
+		found = 0
+		for _, idxRow := range rows {
+			if found >= 2 {
+				break
+			}
+			if idxRow[1] == any(part) && idxRow[2] == any(a) {
+				idxRow[2] = b
+				found++
+			} else if idxRow[1] == any(part) && idxRow[2] == any(b) {
+				idxRow[2] = a
+				found++
+			}
+		}
+	}
+}
+
+// swapLocationsResetAfter: the counter is put back to its initial constant after each index: correct.
+func swapLocationsResetAfter(td *TableData, part string, a, b int) {
+	found := 0
+	for _, rows := range td.secondaryIndexStorage {
+		for _, idxRow := range rows {
+			if idxRow[1] == any(part) && idxRow[2] == any(a) {
+				idxRow[2] = b
+				found++
+			} else if idxRow[1] == any(part) && idxRow[2] == any(b) {
+				idxRow[2] = a
+				found++
+			}
+			if found >= 2 {
+				break
+			}
+		}
+		found = 0
+	}
+}
+
+// swapLocationsCarried: the counter lives across the indexes: every index after the first stops after one entry. BUG.
+func swapLocationsCarried(td *TableData, part string, a, b int) {
+	found := 0
+	for _, rows := range td.secondaryIndexStorage {
+		for _, idxRow := range rows {
+			if idxRow[1] == any(part) && idxRow[2] == any(a) {
+				idxRow[2] = b
+				found++
+			} else if idxRow[1] == any(part) && idxRow[2] == any(b) {
+				idxRow[2] = a
+				found++
+			}
+			if found >= 2 {
+				break
+			}
+		}
+	}
+}
+
+// dropFromIndexes removes the entries of one row; a flag remembered across the indexes guards the write itself. BUG.
+func dropFromIndexes(td *TableData, part string, pos int) {
+	done := false
+	for _, idx := range td.indexes {
+		st := td.secondaryIndexStorage[indexName(idx.name)]
+		for i := len(st) - 1; i >= 0; i-- {
+			if !done && st[i][1] == any(part) && st[i][2] == any(pos) {
+				st = append(st[:i], st[i+1:]...)
+				done = true
+			}
+		}
+		td.secondaryIndexStorage[indexName(idx.name)] = st
+	}
+}
+
+var _ = []any{insertRow, removeRow, widen, swapLocations, swapLocationsReset, swapLocationsResetAfter, swapLocationsCarried, dropFromIndexes}
